@@ -29,3 +29,7 @@ Proof.
   change (oltb ROps) with Rltb. change (oadd ROps) with Rplus. change (omul ROps) with Rmult.
   rewrite Rltb_f by lra. f_equal. f_equal. lra.
 Qed.
+
+(* a two-class model and a three-class model *)
+Definition ex_lr2 : lr_model (T := R) := mkLr [[1; -1]] [1/2] [3; 7] 2%nat.
+Definition ex_lr3 : lr_model (T := R) := mkLr [[1; 0]; [0; 1]; [1; 1]] [0; 0; 1/2] [5; -2; 9] 3%nat.
